@@ -83,15 +83,22 @@ class Fn:
         self.node = node
         self.tr = tr
         self.erules = [(_pat_expr(p), t) for p, t in cfg.get("expr_rules", [])]
-        self.srules = [(_pat_stmt(p), t) for p, t in cfg.get("stmt_rules", [])]
+        self.srules = [(_pat_stmt(r_[0]), r_[1]) for r_ in cfg.get("stmt_rules", [])]
+        self.srule_assigns = [(_pat_stmt(r_[0]), r_[2]) for r_ in cfg.get("stmt_rules", []) if len(r_) > 2]
         self.skip = [_pat_stmt(p) for p in cfg.get("skip_stmts", [])]
         self.add = cfg.get("add", "+")
         self.ret = cfg.get("ret", "{}")
-        self.depth = 0
+        self.loops = []
         self.defd = {a.arg for a in node.args.args}
         self.raise_ = cfg.get("raise", "Py.raise Err.{}")
         self.fall = cfg.get("fallthrough")            # code when the function body ends without return
         self.errs = {"ValueError": "valueError", "KeyError": "keyError", "IndexError": "indexError"}
+
+    def fill(self, tmpl, b):
+        """a rule template with its metavariables translated (only those the template mentions)"""
+        import string
+        used = {f for _, f, _, _ in string.Formatter().parse(tmpl) if f}
+        return tmpl.format(**{k: self.E(v) for k, v in b.items() if k in used})
 
     # ---------- expressions
     def E(self, e):
@@ -100,7 +107,7 @@ class Fn:
             if _match(pat, e, b):
                 if callable(tmpl):
                     return tmpl(self, b)
-                return tmpl.format(**{k: self.E(v) for k, v in b.items()})
+                return self.fill(tmpl, b)
         if isinstance(e, ast.Constant) and e.value is None:
             return "none"
         if isinstance(e, ast.Attribute) and ast.unparse(e) in self.cfg.get("attr_map", {}):
@@ -164,28 +171,31 @@ class Fn:
         if not stmts:
             return False
         s = stmts[-1]
-        if isinstance(s, (ast.Return, ast.Raise)) or self.is_terminal(s):
+        if isinstance(s, (ast.Return, ast.Raise, ast.Break, ast.Continue)) or self.is_terminal(s):
             return True
         if isinstance(s, ast.If):
             return self.always_leaves(s.body) and self.always_leaves(s.orelse)
         return False
 
     def has_leave(self, stmts):
-        return any(isinstance(n, (ast.Return, ast.Raise)) or (isinstance(n, ast.stmt) and self.is_terminal(n))
+        return any(isinstance(n, (ast.Return, ast.Raise, ast.Break, ast.Continue)) or (isinstance(n, ast.stmt) and self.is_terminal(n))
                    for s in stmts for n in ast.walk(s))
 
     def only_raises(self, stmts):
         """every way out of these statements other than falling through is a `raise`"""
-        return not any(isinstance(n, ast.Return) or (isinstance(n, ast.stmt) and self.is_terminal(n))
+        return not any(isinstance(n, (ast.Return, ast.Break, ast.Continue)) or (isinstance(n, ast.stmt) and self.is_terminal(n))
                        for s in stmts for n in ast.walk(s))
 
-    @staticmethod
-    def assigned(stmts):
+    def assigned(self, stmts):
         out = []
         for s in stmts:
             for n in ast.walk(s):
                 if isinstance(n, ast.Name) and isinstance(n.ctx, ast.Store) and n.id not in out:
                     out.append(n.id)
+                if isinstance(n, ast.stmt):
+                    for pat, names in self.srule_assigns:       # names that a statement rule assigns (e.g. the log list)
+                        if _match(pat, n, {}):
+                            out += [x for x in names if x not in out]
         return out
 
     @staticmethod
@@ -219,7 +229,7 @@ class Fn:
         for pat, tmpl in self.srules:
             b = {}
             if _match(pat, s, b):
-                line = pad + tmpl.lstrip("!").format(**{k: self.E(v) for k, v in b.items()})
+                line = pad + self.fill(tmpl.lstrip("!"), b)
                 if tmpl.startswith("!"):                   # a rule that ends the function (its value is the result)
                     if any(not self.is_skipped(r) for r in rest):
                         raise Unsupported("statements after `%s`" % ast.unparse(s).splitlines()[0])
@@ -249,8 +259,8 @@ class Fn:
             if s.value is None:
                 raise Unsupported("bare return")
             v = self.ret.format(self.E(s.value))
-            for _ in range(self.depth):
-                v = "Sum.inl (%s)" % v
+            for lp in reversed(self.loops):
+                v = "%s (%s)" % (lp["ret"], v)
             return [pad + "pure (%s)" % v]
         if isinstance(s, ast.Raise):
             exc = s.exc.func.id if isinstance(s.exc, ast.Call) else getattr(s.exc, "id", None)
@@ -284,8 +294,13 @@ class Fn:
             ls += [pad + "| Except.ok %s =>" % lean_name(x)]
             self.defd.add(x)
             return ls + self.S_(rest, ind + 1, end, live_after)
-        if isinstance(s, ast.For) and not s.orelse and isinstance(s.target, ast.Name):
+        if isinstance(s, ast.For) and not s.orelse and (isinstance(s.target, ast.Name) or (
+                isinstance(s.target, ast.Tuple) and all(isinstance(e_, ast.Name) for e_ in s.target.elts))):
             return self.Loop(s, rest, ind, end, live_after, "for")
+        if isinstance(s, (ast.Break, ast.Continue)):
+            if not self.loops or not self.loops[-1]["brk"]:
+                raise Unsupported("break / continue outside a for loop")
+            return [pad + "pure (%s %s)" % ("Py.Step.brk" if isinstance(s, ast.Break) else "Py.Step.next", self.loops[-1]["tup"])]
         if isinstance(s, ast.While) and not s.orelse and isinstance(s.test, ast.Constant) and s.test.value is True:
             return self.Loop(s, rest, ind, end, live_after, "while")
         raise Unsupported("statement `%s`" % ast.unparse(s).splitlines()[0])
@@ -387,28 +402,49 @@ class Fn:
         self.defd |= set(vs)
         return ls + self.S_(rest, ind, end, live_after)
 
+    @staticmethod
+    def has_break(stmts):
+        """a `break` / `continue` that belongs to this loop level (not to a nested loop)"""
+        def walk(n):
+            if isinstance(n, (ast.Break, ast.Continue)):
+                return True
+            if isinstance(n, (ast.For, ast.While)):
+                return False
+            return any(walk(c) for c in ast.iter_child_nodes(n))
+        return any(walk(x) for x in stmts)
+
     def Loop(self, s, rest, ind, end, live_after, kind):
         pad = "  " * ind
-        live = self.loaded(rest) | set(live_after) | self.loaded(s.body)
-        later = self.loaded(rest) | set(live_after)
+        if kind == "for":
+            tnames = [s.target.id] if isinstance(s.target, ast.Name) else [e.id for e in s.target.elts]
+            tpat = self.cfg.get("loop_targets", {}).get(ast.unparse(s.target), None)
+            if tpat is None:
+                tpat = lean_name(tnames[0]) if len(tnames) == 1 else "(%s)" % ", ".join(lean_name(t) for t in tnames)
+        else:
+            tnames, tpat = [], None
+        live = self.loaded(rest) | set(live_after) | self.loaded(s.body) | set(self.cfg.get("always_live", ()))
+        later = self.loaded(rest) | set(live_after) | set(self.cfg.get("always_live", ()))
         fresh = [v for v in self.assigned(s.body) if v not in self.defd and v in later]
         if fresh:
             raise Unsupported("variable %s first assigned inside a loop and used after it" % fresh[0])
-        vs = [v for v in self.assigned(s.body) if v in live and v in self.defd and not (kind == "for" and v == s.target.id)]
+        vs = [v for v in self.assigned(s.body) if v in live and v in self.defd and v not in tnames]
         tup = ", ".join(lean_name(v) for v in vs)
         tup = "(%s)" % tup if len(vs) != 1 else tup
         if not vs:
             tup = "()"
-        # inside the body: `return v` leaves the loop with the function's result (`Sum.inl`), the end of the body carries
-        # the state on (`Sum.inr`); the rest of the function is the continuation
-        body_end = lambda i: ["  " * i + "pure (Sum.inr %s)" % tup]                  # noqa: E731
-        self.depth += 1
+        brk = kind == "for" and self.has_break(s.body)
+        # inside the body: `return v` leaves the loop with the function's result, the end of the body carries the state on;
+        # with `break` / `continue` in the body the three-way `Py.Step` is used, otherwise `Sum`
+        nxt, ret = ("Py.Step.next", "Py.Step.ret") if brk else ("Sum.inr", "Sum.inl")
+        body_end = lambda i: ["  " * i + "pure (%s %s)" % (nxt, tup)]                  # noqa: E731
+        self.loops.append({"tup": tup, "brk": brk, "ret": ret})
+        self.defd |= set(tnames)
         try:
             body = self.S(s.body, ind + 2, body_end, set(vs))
         finally:
-            self.depth -= 1
+            self.loops.pop()
         if kind == "for":
-            head = pad + "Py.forLoop (%s) %s (fun %s %s => do" % (self.E(s.iter), tup, lean_name(s.target.id), "_" if not vs else tup)
+            head = pad + "%s (%s) %s (fun %s %s => do" % ("Py.forLoopB" if brk else "Py.forLoop", self.E(s.iter), tup, tpat, "_" if not vs else tup)
         else:
             head = pad + "Py.whileLoop %s %s (fun %s => do" % (self.cfg["while_fuel"], tup, "_" if not vs else tup)
         ls = [head] + body
@@ -447,6 +483,9 @@ class Fn:
                   "  | fuel + 1, %s => do" % ", ".join(ps)]
             return "\n".join(ls + self.S(body, 2, fn_end))
         ls = [doc, "def %s %s := %s" % (cfg["name"], cfg["sig"], cfg.get("run", "") + "do")]
+        for pl in cfg.get("prelude", []):
+            ls.append("  " + pl[1])
+            self.defd.add(pl[0])
         return "\n".join(ls + self.S(body, 1, fn_end))
 
 
@@ -625,6 +664,25 @@ FUNCS.append(
          stmt_rules=[("lookup[decrypted] = juniper_secrets.juniper_decrypt(anon_val)", "Py.lkSetOpt decrypted (← Py.lift (Juniper.decrypt anon_val))"),
                      ("lookup[val] = anon_val", "Py.lkSet val anon_val")]))
 FUNCS.append(
+    dict(module="netconan/sensitive_item_removal.py", qual="replace_matching_item", name="replace_matching_item",
+         sig="(x : Secrets.Ext) (fs : List Regex.Re) (compiled_regexes : List (List ((Regex.Re × Option Nat × Option Nat) × String))) "
+             "(input_line : List Char) (salt : List Char) : Py.L (List Char × List Secrets.LogRec)",
+         add="++", raise_="Py.lraise Err.{}", ret="({}, logs)", always_live=("logs",),
+         prelude=[("logs", "let logs : List Secrets.LogRec := []")],
+         loop_targets={"(compiled_re, sensitive_item_num)": "((compiled_re, sensitive_item_num, compiled_re_prefix), compiled_re_pattern)"},
+         skip_stmts=["logging.debug(A, B)"],
+         stmt_rules=[("logging.warning(A, compiled_re.pattern)", "let logs := logs ++ [Secrets.scrubWarning compiled_re_pattern]", ["logs"])],
+         expr_rules=[("_split_line(A)", "Secrets.splitLine x.isSpace {A}"),
+                     ("_extract_enclosing_text(' '.join(words), A, B)",
+                      "extract_enclosing_text (List.length (Secrets.joinSp words) + 1) (Secrets.joinSp words) {A} {B}"),
+                     ("compiled_re.search(A)", "(← Py.searchL compiled_re {A})"),
+                     ("compiled_re.sub(_LINE_SCRUBBED_MESSAGE, A)", "(← Py.subL compiled_re (fun _ => Generated.scrubbedMessage) {A})"),
+                     ("match.group('prefix') if 'prefix' in match.groupdict() else ''",
+                      "(match compiled_re_prefix with | some p => (match_.group p).getD [] | none => [])"),
+                     ("_anonymize_value(match.group(sensitive_item_num), pwd_lookup, reserved_words, salt)",
+                      "(← anonymize_value x fs ((match_.group sensitive_item_num).getD []) salt)"),
+                     ("compiled_re.sub(lambda _: anon_val, A)", "(← Py.subL compiled_re (fun _ => anon_val) {A})")]))
+FUNCS.append(
     dict(module="netconan/anonymize_files.py", qual="FileAnonymizer.anonymize_io", name="line_step", select="for_body",
          sig="(p : Lines.Pipeline) (lk : Secrets.Lookup) (line : List Char) : Except Err (List Char × Secrets.Lookup × List Secrets.LogRec)",
          raise_="throw Err.{}",
@@ -643,8 +701,8 @@ GROUPS = {
     "SrcIp": dict(imports=["Netconan.Model.Py", "Netconan.Model.Mask", "Netconan.Model.IpText", "Netconan.Model.PyRegex"],
                   serves=["C01", "C02", "C03", "C04", "C05", "C06", "C17"],
                   funcs=["is_mask", "anonymize_bits", "deanonymize_bits", "anonymize", "deanonymize", "seed_loop", "should_anonymize", "should_anonymize6", "anonymize_match", "anonymize_ip_addr"]),
-    "SrcSecrets": dict(imports=["Netconan.Model.PySecrets"], serves=["C07", "C08", "C09"],
-                       funcs=["check_sensitive_item_format", "extract_enclosing_text", "anonymize_value"]),
+    "SrcSecrets": dict(imports=["Netconan.Model.PySecrets"], serves=["C07", "C08", "C09", "C12", "C13", "C14", "C15"],
+                       funcs=["check_sensitive_item_format", "extract_enclosing_text", "anonymize_value", "replace_matching_item"]),
     "SrcAs": dict(imports=["Netconan.Model.Py", "Netconan.Model.Words"], serves=["C11"],
                   funcs=["generate_as_number_replacement"]),
     "SrcLines": dict(imports=["Netconan.Model.Py", "Netconan.Model.Lines"], serves=["C12", "C13", "C14", "C15"], funcs=["line_step"]),
